@@ -210,9 +210,23 @@ def run(cx):
                     elif f.id == "_ensure_representable":   # a pure range check on the folded value (its verdicts are decided by C11-CONVERT)
                         ok = True
                     else:
-                        # a local that only ever holds the result of a lookup in one of the checked tables
+                        # a local that only ever holds a safe callable: a lookup in one of the checked tables, a safe builtin,
+                        # a function of the scope, or a conditional choice between such values
+                        def safe_callable_expr(d_, _sfn=sfn, _ld=local_defs):
+                            if isinstance(d_, ast.Subscript):
+                                return norm(d_.value) in set(module_tables) | {"ops"}
+                            if isinstance(d_, ast.Call) and isinstance(d_.func, ast.Attribute) and d_.func.attr == "get":
+                                return norm(d_.func.value) in set(module_tables) | {"ops"}
+                            if isinstance(d_, ast.Name):
+                                return d_.id in (SAFE_EV_BUILTINS - {"type", "isinstance"}) or d_.id in _ld
+                            if isinstance(d_, ast.IfExp):
+                                return safe_callable_expr(d_.body) and safe_callable_expr(d_.orelse)
+                            if isinstance(d_, ast.Attribute):
+                                dn_ = dotted(d_) or ""
+                                return dn_.split(".")[0] in ("op", "operator") and dn_.split(".")[-1] in SAFE_OPERATOR
+                            return False
                         ds_ = [x.value for x in ast.walk(sfn) if isinstance(x, ast.Assign) and len(x.targets) == 1 and isinstance(x.targets[0], ast.Name) and x.targets[0].id == f.id]
-                        ok = bool(ds_) and all((isinstance(d_, ast.Subscript) and norm(d_.value) in set(module_tables) | {"ops"}) or (isinstance(d_, ast.Call) and isinstance(d_.func, ast.Attribute) and d_.func.attr == "get" and norm(d_.func.value) in set(module_tables) | {"ops"}) for d_ in ds_)
+                        ok = bool(ds_) and all(safe_callable_expr(d_) for d_ in ds_)
                 elif isinstance(f, ast.Attribute):
                     dn = dotted(f) or ""
                     if dn in ("ast.parse",):
